@@ -35,7 +35,7 @@ Lemma wf_cs_example : wf_cs_proj [w_task Checksum].
 Proof.
   split.
   - intros [|tid] t E; cbn in E; inversion E; subst.
-    + repeat split; discriminate.
+    + repeat split; try reflexivity; discriminate.
     + destruct tid; discriminate.
   - intros [|i] [|j] ti tj Ei Ej _; cbn in Ei, Ej; try reflexivity;
       try (destruct i; discriminate); try (destruct j; discriminate).
